@@ -17,8 +17,6 @@ pub struct HashMap<K, V> { k: std::marker::PhantomData<(K, V)> }
 /// A5: floats are bit patterns
 pub uninterp spec fn f32_bits(x: f32) -> u32;
 pub uninterp spec fn f64_bits(x: f64) -> u64;
-pub open spec fn le32(x: u32) -> Seq<u8> { seq![(x % 256) as u8, ((x / 0x100) % 256) as u8, ((x / 0x1_0000) % 256) as u8, ((x / 0x100_0000) % 256) as u8] }
-pub open spec fn le64(x: u64) -> Seq<u8> { le32((x % 0x1_0000_0000) as u32) + le32((x / 0x1_0000_0000) as u32) }
 pub assume_specification[f32::from_le_bytes](b: [u8; 4]) -> (r: f32) ensures le32(f32_bits(r)) == b@;
 pub assume_specification[f64::from_le_bytes](b: [u8; 8]) -> (r: f64) ensures le64(f64_bits(r)) == b@;
 pub assume_specification[f32::to_le_bytes](x: f32) -> (r: [u8; 4]) ensures r@ == le32(f32_bits(x));
